@@ -126,7 +126,7 @@ ClauseNames ==
     "C18_where", "C18_same_store", "C18_lands", "C18_reads_work", "C18_lock", "C18_init",
     "C19_summary_noready", "C19_ready_rows", "C19_all_once", "C19_active_once", "C19_ready_exact", "C19_known_rows", "C19_tree", "C19_summary", "C19_empty", "C19_fits", "C19_idcol", "C19_utf8",
     "C12_file_total", "C12_file_names_line", "C12_file_shows", "C12_file_deterministic", "C12_file_pure",
-    "C17_roundtrip", "C17_stays", "C17_accepted", "C17_overlimit",
+    "C17_roundtrip", "C17_stays", "C17_accepted", "C17_overlimit", "C17_blank",
     "R_step", "R_reply", "R_time", "R_preview", "R_faillog" }
 
 Eval(n, o) ==
@@ -233,6 +233,7 @@ Eval(n, o) ==
     [] n = "C17_stays" -> Tx!C17_stays(o.text)
     [] n = "C17_accepted" -> Tx!C17_accepted(o.text)
     [] n = "C17_overlimit" -> Tx!C17_overlimit(o.text)
+    [] n = "C17_blank" -> Tx!C17_blank(o.text)
     [] n = "R_step" -> R_step(o)
     [] n = "R_reply" -> R_reply(o)
     [] n = "R_time" -> R_time(o)
@@ -254,7 +255,7 @@ ConcNames == {"C01_serial", "C01_no_double", "C01_outcomes", "C01_winner_holds",
               "C08_serial",
               "C01_nowait",
               "C03_readable", "C03_only_own_missing", "C03_continues", "C04_all_or_nothing"}
-TextNames == {"C19_summary_noready", "C19_ready_rows", "C17_overlimit", "C12_file_total", "C12_file_names_line", "C12_file_shows", "C12_file_deterministic", "C12_file_pure", "C19_all_once", "C19_active_once", "C19_ready_exact", "C19_known_rows", "C19_tree", "C19_summary", "C19_empty", "C19_fits", "C19_idcol", "C19_utf8", "C17_roundtrip", "C17_stays", "C17_accepted", "C18_where", "C18_same_store", "C18_lands", "C18_reads_work", "C18_lock", "C18_init"}
+TextNames == {"C18_where", "C18_same_store", "C18_lands", "C18_reads_work", "C18_lock", "C18_init", "C19_summary_noready", "C19_ready_rows", "C19_all_once", "C19_active_once", "C19_ready_exact", "C19_known_rows", "C19_tree", "C19_summary", "C19_empty", "C19_fits", "C19_idcol", "C19_utf8", "C12_file_total", "C12_file_names_line", "C12_file_shows", "C12_file_deterministic", "C12_file_pure", "C17_roundtrip", "C17_stays", "C17_accepted", "C17_overlimit", "C17_blank"}
 Wanted(r) == IF "only" \in DOMAIN r THEN ToSet(r.only) \cap ClauseNames ELSE ClauseNames \ (ConcNames \cup TextNames)
 
 Init == i = 0 /\ bad = {}
